@@ -6,6 +6,15 @@ import os
 VERIF = os.path.dirname(os.path.dirname(os.path.abspath(__file__)))
 
 CLAIMED = {
+    "C02": dict(text="Coq theorems by induction over arbitrary nestings of subset / concat / balanced concat / wrapper layers: resolve s k = "
+                     "nth k (map_of s) for -len <= k < len (map_of = composition of the layers' index maps), len = length of the map, "
+                     "balanced concat round-robins, bisect lookup is the inverse of the cumulative sizes (also negative k), getall = map of "
+                     "getitem (fast and slow path of utils.getall), root / wrapper list / wrapper lookup / dispose through every linear "
+                     "chain; getall over a balanced concat is proved NOT to agree (getall_balanced_refuted, a recorded known finding). "
+                     "Model tied to /repo by resolving every index of random stacks on the real classes every run.",
+                ref="2 C02", note="Coq kernel+vm_compute; hand-written model coq/C02/Model.v; torch Subset/ConcatDataset constructors and "
+                "bisect trusted; arbitrary attribute delegation exercised for a few names only",
+                technique="Coq proofs (structural induction over dataset stacks) over a hand-written model + vm_compute correspondence with the real dataset classes"),
     "C04": dict(text="Coq theorems (all N, B, budgets, configs, epoch permutations): the model of _training_loop equals a "
                      "closed-form spec (epoch-wise concatenation cut by batch size, stop at the first update reaching "
                      "the budget, termination within the remaining budget); model tied to /repo by evaluating model, "
@@ -21,6 +30,40 @@ CLAIMED = {
                      "state equals the state the uninterrupted run has there, hence the resumed run is the suffix; "
                      "correspondence compares resumed and fresh runs of the real code.",
                 ref="2 C04/C05/C06", note="as C04", technique="Coq proof (resume = suffix, from model = spec) + differential run fresh vs resumed"),
+    "C07": dict(text="Coq theorems: generic provenance theory of generator slots in object trees of any depth/width (closed_table_deterministic: "
+                     "over a closed class table every draw of every call after set_rng(s) comes from the injected generator - no "
+                     "process-global source, no construction-time generator, no earlier injection), plus table_closed discharged by "
+                     "vm_compute on the class table REGENERATED from /repo's sources (Python ast translator) on every run; the "
+                     "translator and the theorem are tied to the running code by building two independently constructed instances "
+                     "of every shipped class and of random compositions under different global seeds/histories, injecting equal "
+                     "seeds, comparing outputs/ctx bit for bit with a global-RNG tripwire, and comparing observed draw sources with the table.",
+                ref="2 C07", note="Coq kernel+vm_compute; translator harness/translate_rng.py (fail-closed) trusted modulo the live-tree "
+                "comparison; torchvision/PIL determinism for equal draws observed, not proved",
+                technique="Coq proof (nested induction over object trees) over a table regenerated from source by an ast translator + finite exhaustive table check by vm_compute + live differential runs"),
+    "C10": dict(text="Coq theorems for every batch size, image size, mode combination, probability split and draw sequence within the "
+                     "generator contract: image and label of sample i share partner and weight (retained pixel fraction counted "
+                     "pixel by pixel = label weight = ctx lambda), boxes in bounds, adjusted lambda = area fraction, lambda in [0,1], "
+                     "mixed label rows are distributions, partner follows the shuffle mode, other items untouched; model tied to "
+                     "/repo by decoding id-encoded real batches with recorded draws on every run.",
+                ref="2 C10", note="Coq kernel+vm_compute; hand-written model coq/C10/Model.v; float32 pixel arithmetic and half-box sqrt "
+                "not modelled (descriptors decoded with stated tolerance)",
+                technique="Coq proofs (QArith, induction over the batch) over a hand-written model + vm_compute correspondence with the real collator"),
+    "C12": dict(text="Coq theorems for all n, world sizes, ranks, repeats, epochs and all global draws: every rank's stream has exactly "
+                     "len(sampler) entries, the round-robin merge of the rank streams is the global draw with only trailing entries "
+                     "dropped or wrapped, the draw's seed argument is seed+epoch and has no rank argument, repeated augmentation "
+                     "occupies consecutive slots; weighted and class-balanced rank splits likewise; model tied to /repo by running all "
+                     "ranks of the real samplers with spies on the torch draw functions every run.",
+                ref="2 C12", note="Coq kernel+vm_compute; hand-written model coq/C12/Model.v; that a different seed gives a different "
+                "torch draw is observed, not proved",
+                technique="Coq proofs (list induction, div/mod arithmetic) over a hand-written model + vm_compute correspondence with the real samplers on all ranks"),
+    "C18": dict(text="Coq theorems for every list of member collators (any modes, any collate functions): default collation at most once and "
+                     "exactly once where asked, (batch, ctx) returned iff configured, ctx keys neither lost nor invented, layout preserved, "
+                     "padding = original ++ zeros up to the batch maximum and other fields as default collation, with and without "
+                     "per-sample contexts; model (state machine of _call_impl + PadSequencesCollator) tied to /repo by running real "
+                     "collator pipelines with observed operations on generated member lists every run.",
+                ref="2 C18", note="Coq kernel+vm_compute; hand-written model coq/C18/Model.v; torch default_collate / pad_sequence "
+                "semantics trusted (operations observed by wrapping them)",
+                technique="Coq proofs (induction over the member list / fields) over a hand-written state-machine model + vm_compute correspondence with the real collators"),
     "C16": dict(text="Coq theorems for all label layouts / parameters / draw sequences: bulk accessor = map of the per-sample "
                      "accessor for each of the eight label-rewriting wrappers, labels within the announced class shape (or -1 where "
                      "allowed), all-gather permutation shape, smoothing/one-hot vectors over Q are distributions with the original "
